@@ -1,5 +1,5 @@
 From Coq Require Import List NArith ZArith Permutation.
-From SK Require Import lib.LGraph lib.StrJoin model.C08_Model proof.C08_Spec proof.C08_Faithful proof.C08_Nauty proof.C08_SigFun proof.C08_Sound proof.C08_Invariant proof.C08_Value proof.C08_GraphSig.
+From SK Require Import lib.LGraph lib.StrJoin model.C08_Model proof.C08_Spec proof.C08_Faithful proof.C08_Nauty proof.C08_SigFun proof.C08_Sound proof.C08_Invariant proof.C08_Value proof.C08_GraphSig proof.C08_Auts.
 Import ListNotations.
 
 (** 1. Faithfulness: the canonical graph is the input relabelled by a map that is injective on its nodes;
@@ -188,3 +188,21 @@ Theorem C08_graph_signature_is_min_label : forall g : graph, wf g ->
   graph_sig_label g = nlabel g (nauty_perm g) /\ nauty_label g = Some (nlabel g (nauty_perm g)).
 Proof. exact graph_sig_label_min_both. Qed.
 Print Assumptions C08_graph_signature_is_min_label.
+
+(** 9. The automorphism output of the exact back-end (canonical_form(return_aut=True); input of compute_orbits):
+       the permutations reported next to the best one are exactly the leaves with the minimal label.
+       Sound: each is a permutation of the node set with the label of the best one, and renumbering by it gives the same
+       covered canonical graph - best_i |-> reported_i is an automorphism on the covered attributes.
+       Complete: every automorphism sigma of the covered graph carries the best permutation to a reported one
+       (pruning never drops a leaf with the minimal label). *)
+Theorem C08_nauty_automorphisms_sound : forall g : graph, wf g -> els_ok g -> forall q, In q (snd (nauty_acc g)) ->
+  Permutation q (node_ids g) /\ nlabel g q = nlabel g (nauty_perm g) /\
+  geq_cov (relabel (apply_map (mapping_of (nauty_perm g))) g) (relabel (apply_map (mapping_of q)) g).
+Proof. exact nauty_auts_sound. Qed.
+Print Assumptions C08_nauty_automorphisms_sound.
+
+Theorem C08_nauty_automorphisms_complete : forall (g : graph) (sigma : N -> N), wf g ->
+  (forall x y, sigma x = sigma y -> x = y) -> geq_cov (relabel sigma g) g ->
+  In (map sigma (nauty_perm g)) (snd (nauty_acc g)).
+Proof. exact nauty_auts_complete. Qed.
+Print Assumptions C08_nauty_automorphisms_complete.
